@@ -2509,16 +2509,28 @@ static void vbi_proxyd_handle_client_sockets( fd_set * rd, fd_set * wr )
          else
          {
             /* forward data from slicer out queue */
-            while ((req->p_sliced != NULL) && (io_blocked == FALSE))
+            /* the queue mutex is held from the test of the client's cursor until the buffer is
+            ** released: the acquisition thread (vbi_proxy_queue_force_free) may otherwise advance
+            ** the cursor and recycle the buffer while it is being copied into the message */
+            while (io_blocked == FALSE)
             {
-               dprintf(DBG_QU, "handle_sockets: fd %d: forward sliced frame with %d lines (of max %d)\n", req->io.sock_fd, req->p_sliced->line_count, req->p_sliced->max_lines);
-               if (vbi_proxyd_send_sliced(req, &io_blocked) )
-               {  /* only in success case because close releases all buffers */
-                  pthread_mutex_lock(&proxy.dev[req->dev_idx].queue_mutex);
-                  vbi_proxy_queue_release_sliced(req);
+               vbi_bool sent;
+
+               pthread_mutex_lock(&proxy.dev[req->dev_idx].queue_mutex);
+               if (req->p_sliced == NULL)
+               {
                   pthread_mutex_unlock(&proxy.dev[req->dev_idx].queue_mutex);
+                  break;
                }
-               else
+               dprintf(DBG_QU, "handle_sockets: fd %d: forward sliced frame with %d lines (of max %d)\n", req->io.sock_fd, req->p_sliced->line_count, req->p_sliced->max_lines);
+               sent = vbi_proxyd_send_sliced(req, &io_blocked);
+               if (sent)
+               {  /* only in success case because close releases all buffers */
+                  vbi_proxy_queue_release_sliced(req);
+               }
+               pthread_mutex_unlock(&proxy.dev[req->dev_idx].queue_mutex);
+
+               if (sent == FALSE)
                {  /* I/O error */
                   vbi_proxyd_close(req, FALSE);
                   io_blocked = TRUE;
